@@ -284,3 +284,52 @@ func verifC10Sampler(N int) {
 
 func VerifHarness_C10_Sampler_2() { verifC10Sampler(2) }
 func VerifHarness_C10_Sampler_3() { verifC10Sampler(3) }
+
+// C18-O6: metric values and the choice among ties do not depend on map
+// iteration order.  Three series whose values do not add up associatively
+// (1e16, 1, -1e16) are summed by an outer aggregation; the same evaluation is
+// done twice under every iteration order of the engine's maps.
+func VerifHarness_C18_MetricMapOrder() {
+	vals := []float64{1e16, 1, -1e16}
+	var in []logqlmetric.SampledEntry
+	for j, v := range vals {
+		set := newLabelSet()
+		set.Set("job", pcommon.NewValueStr("x"))
+		set.Set("c", pcommon.NewValueStr("c"+string(rune('0'+j))))
+		in = append(in, logqlmetric.SampledEntry{Sample: v, Timestamp: otelstorage.Timestamp(1700000000*1e9 + int64(j)), Set: newAggregatedLabels(set, nil, nil)})
+	}
+	op := vsymChoice("op", 2)
+	inner := &logql.RangeAggregationExpr{Op: logql.RangeOpSum}
+	inner.Range.Range = time.Minute
+	inner.Range.Unwrap = &logql.UnwrapExpr{Label: "v"}
+	outer := &logql.VectorAggregationExpr{Op: logql.VectorOpSum, Expr: inner, Grouping: &logql.Grouping{Labels: []logql.Label{"job"}}}
+	if op == 1 {
+		// ties: equal values, topk must always pick the same series
+		for j := range in {
+			in[j].Sample = 1
+		}
+		k := 1
+		outer = &logql.VectorAggregationExpr{Op: logql.VectorOpTopk, Parameter: &k, Expr: inner, Grouping: &logql.Grouping{Labels: []logql.Label{"job"}}}
+	}
+	t0 := time.Unix(1700000010, 0)
+	eval := func() (float64, string) {
+		sel := func(*logql.RangeAggregationExpr, time.Time, time.Time) (iterators.Iterator[logqlmetric.SampledEntry], error) {
+			return iterators.Slice(in), nil
+		}
+		it, err := logqlmetric.Build(outer, sel, logqlmetric.EvalParams{Start: t0, End: t0, Step: time.Second})
+		vsymAssert(err == nil, "the query builds")
+		var st logqlmetric.Step
+		vsymAssert(it.Next(&st) && len(st.Samples) == 1, "one series out")
+		return st.Samples[0].Data, st.Samples[0].Set.AsLokiAPI()["c"]
+	}
+	vsymMapOrderAll()
+	v1, c1 := eval()
+	v2, c2 := eval()
+	vsymMapOrderDefault()
+	if v1 != v2 || c1 != c2 {
+		vsymFinding("F46", true, "[maporder] metric results depend on map iteration order: the range and vector aggregations hand their series on in map order, so a floating-point sum over >= 3 series changes in its last digits from run to run (1e16 + 1 - 1e16 is 0, 1 or 2) and topk picks a different series among ties")
+		return
+	}
+	vsymAssert(v1 == v2 && c1 == c2, "[maporder] repeating the evaluation gives the same value and the same series")
+	vsymReach("C18_metric_map_order")
+}
